@@ -4,7 +4,7 @@ from props.regcommon import RB, entries
 
 ID = "C03"
 THEOREMS = [("FlatModel.Props.C03", t) for t in ("FC.C03.rep_default", "FC.C03.rep_copy", "FC.C03.observers", "FC.C03.rep_clear",
-                                                  "FC.C03.rep_extend", "FC.C03.rep_fromIter")]
+                                                  "FC.C03.rep_extend", "FC.C03.rep_fromIter", "FC.C03.iter_spec")]
 LEAN_TARGETS = ["FlatModel.Generated.Covered"]
 PROFILES = {"quick": ["checked"], "thorough": ["checked", "wrapping"], "search": ["checked"]}
 RULE = ("histories of copy / extend / from_iter / clear / clone / reserve over every catalogued region x every admissible index "
